@@ -50,6 +50,7 @@ type namedObs struct {
 	Kind, ID, Local, PkgName, PkgPath string
 	Members                           []string // union: member local names ; enum: exported constant names
 	Hidden                            []string // enum: unexported constant names
+	Implementers                      []string // union: the non-interface, non-generic defined types of its package implementing it, by go/types (E1)
 }
 
 type obsResult struct {
@@ -231,6 +232,22 @@ func (w *walker) visitAt(node analysis.Type, at types.Type, atCoq string) {
 			for _, m := range n.Members {
 				if mt, ok := safeType(m).(*types.Named); ok {
 					no.Members = append(no.Members, mt.Obj().Name())
+				}
+			}
+			if itf, ok := named.Underlying().(*types.Interface); ok && named.TypeParams().Len() == 0 {
+				scope := named.Obj().Pkg().Scope()
+				for _, name := range scope.Names() {
+					tn, ok := scope.Lookup(name).(*types.TypeName)
+					if !ok || tn.IsAlias() {
+						continue
+					}
+					cand, ok := tn.Type().(*types.Named)
+					if !ok || cand.TypeParams().Len() != 0 || types.IsInterface(cand) {
+						continue
+					}
+					if types.Implements(cand, itf) {
+						no.Implementers = append(no.Implementers, name)
+					}
 				}
 			}
 		case *analysis.Enum:
